@@ -346,6 +346,10 @@ class TMGRSchedulingComponent(rpu.ClientComponent):
         task['task_sandbox'     ] = str(self._session._get_task_sandbox(task, pilot))
         task['task_sandbox_path'] = ru.Url(task['task_sandbox']).path
 
+        # publish the full task on the next state update, so that the
+        # application side task instance learns about the binding
+        task['$all'] = True
+
         with self._tasks_lock:
             if pid not in self._tasks:
                 self._tasks[pid] = list()
